@@ -33,6 +33,25 @@ def _run_chunk(cases):
             contents = content.make_tree(wd, name, files, seed=c['cseed'], single=single)
             t = content.make_torrent(torf, wd, name, files, L, single=single,
                                      via_setter=c.get('via_setter', False))
+            oom = c.get('oom')
+            if oom:
+                import builtins
+                plan = {'n': 0, 'at': oom['at'], 'burst': oom['burst'], 'fired': 0}
+
+                class _F:
+                    def __init__(self, fh):
+                        self._fh = fh
+
+                    def read(self, *a):
+                        plan['n'] += 1
+                        if plan['at'] <= plan['n'] < plan['at'] + plan['burst']:
+                            plan['fired'] += 1
+                            raise MemoryError('injected')
+                        return self._fh.read(*a)
+
+                    def __getattr__(self, k):
+                        return getattr(self._fh, k)
+                _stream.open = lambda p, mode='r', *a, **k: _F(builtins.open(p, mode, *a, **k))
             if c['level'] in ('stream', 'both'):
                 with _stream.TorrentFileStream(t) as tfs:
                     items = list(tfs.iter_pieces())
@@ -45,6 +64,11 @@ def _run_chunk(cases):
                 obs['npieces'] = t.pieces
         except BaseException as e:  # noqa
             obs['exc'] = f'{type(e).__name__}: {e}'
+            obs['exc_type'] = type(e).__name__
+        finally:
+            _stream.__dict__.pop('open', None)
+        if c.get('oom'):
+            obs['oom_fired'] = plan['fired'] if 'plan' in dir() else 0
         out.append((c, obs, contents))
     return out
 
@@ -88,6 +112,23 @@ def gen_cases(ctx, scale=1.0):
         c = _mk_case(L, sizes, rng, 'generate', threads=rng.randint(1, 8), via_setter=True)
         c['shape'] = 'real-16k'
         cases.append(c)
+    # 3b. files much larger than the piece length, piece lengths that are not powers of two
+    for _ in range(int(ctx.n(24, 400) * scale)):
+        L = 16384 * rng.choice([1, 3, 3, 5, 6, 7, 12, 48])
+        n = rng.randint(1, 3)
+        sizes = [rng.choice([rng.randint(1 << 20, 3 << 20), rng.randint(1, 2 * L), (1 << 20) + L + 1]) for _ in range(n)]
+        sizes[rng.randrange(n)] = rng.randint((1 << 20) + 1, 3 << 20)
+        c = _mk_case(L, sizes, rng, 'both', threads=rng.randint(1, 4), via_setter=True)
+        c['shape'] = 'big-files'
+        cases.append(c)
+    # 3c. a transient out-of-memory burst while reading (the run recovers): the result must still be right
+    for _ in range(int(ctx.n(150, 3000) * scale)):
+        L = rng.choice([2, 3, 8, 64, 16384])
+        shape, sizes = layouts.random_sizes(rng, L, nmax=10)
+        c = _mk_case(L, sizes, rng, 'generate', threads=rng.randint(1, 4))
+        c['oom'] = {'at': rng.randint(1, 2 * (sum(sizes) // L + len(sizes)) + 1), 'burst': rng.choice([1, 1, 2, 3])}
+        c['shape'] = 'transient-oom'
+        cases.append(c)
     # 4. single-file torrents
     for _ in range(int(ctx.n(40, 600) * scale)):
         L = rng.choice([1, 2, 3, 8, 16384])
@@ -117,8 +158,13 @@ def evaluate(ctx, drv, cases):
                 continue
             want = content.pieces_from_runs(r['model'], contents)
             case = {k2: c[k2] for k2 in ('L', 'sizes', 'paths', 'cseed', 'level', 'threads', 'single', 'via_setter')}
+            if c.get('oom'):
+                case['oom'] = c['oom']
             ctx.sample({'case': case, 'model_pieces': r['model'][:3]})
             if 'exc' in obs:
+                if c.get('oom') and obs.get('exc_type') == 'ReadError':
+                    ctx.dist['oom-gave-up(ReadError, not a successful run)'] += 1
+                    continue
                 ctx.violation(f'hashing/streaming raised {obs["exc"]}', case, 'pieces', obs['exc'])
                 continue
             if 'stream' in obs:
